@@ -155,6 +155,12 @@ def filter_case(rng):
     hits = []
     for gene in ["g1", "g2", "g3"][:rng.choice([1, 1, 2, 3])]:
         placed = []
+        if rng.random() < 0.12:
+            # a chain a-x-y-b in which only neighbours overlap by more than 20 (groups that get bridged)
+            base = rng.randrange(0, 10) * 10
+            for start, end in ((0, 40), (15, 70), (45, 110), (85, 130)):
+                score = rng.choice([10.0, 20.0, 30.0]) if score_style == "few" else float(rng.randrange(5, 500))
+                placed.append([rng.choice(profiles), base + start, base + end, score])
         for _ in range(rng.choice([1, 2, 2, 3, 3, 4, 5, 6])):
             shape = rng.choice(["grid", "grid", "chain", "nest", "same"]) if placed else "grid"
             if shape == "grid":
